@@ -154,3 +154,39 @@ Definition word_or_known (p : piece) : Prop :=
   | Tok n => forallb is_alpha n = true
   | _ => known1 p
   end.
+
+(* the exact shapes that Fmt's output makes ambiguous: ",digit" after a single colour
+   token ("\x0304" ",5" reads as foreground 04, background 5) and a digit after {c}/{clear}
+   ("\x03" "5" reads as colour 5).  A digit after a colour token is harmless because colour
+   numbers are always written with two digits; after a {fg,bg} pair anything is. *)
+Definition comma_digit (s : str) : bool :=
+  match s with
+  | c :: d :: _ => N.eqb c comma_c && is_digit d
+  | _ => false
+  end.
+
+Definition head_is_digit (s : str) : bool :=
+  match s with c :: _ => is_digit c | [] => false end.
+
+Definition single_colour (p : piece) : bool :=
+  match p with
+  | Tok n => match colour_of n with Some _ => true | None => false end
+  | _ => false
+  end.
+
+Definition clear_tok (p : piece) : bool :=
+  match p with
+  | Tok n => match colour_of n with
+             | Some _ => false
+             | None => match code_of n with Some b => streqb b [3] | None => false end
+             end
+  | _ => false
+  end.
+
+Fixpoint spaced_sharp (ps : list piece) : Prop :=
+  match ps with
+  | [] => True
+  | p :: r => (single_colour p = true -> comma_digit (render r) = false) /\
+              (clear_tok p = true -> head_is_digit (render r) = false) /\
+              spaced_sharp r
+  end.
